@@ -445,7 +445,7 @@ def _norm_text(v):
 
 def history_compare(rep, rule, key, world, prepare, earlier, later,
                     setup=None, depth=6, label=None, where=None,
-                    effects=None):
+                    effects=None, max_paths=256):
     """What a call answers must not depend on the calls made before it.
 
     *prepare(interp)* -> the callable under test (a function, or a bound
@@ -472,9 +472,9 @@ def history_compare(rep, rule, key, world, prepare, earlier, later,
         ', '.join(show(a) for a in later[0]))
     try:
         o1, _i = extract(world, fresh, setup=setup, depth=depth,
-                         max_paths=256)
+                         max_paths=max_paths)
         o2, _i = extract(world, after, setup=setup, depth=depth,
-                         max_paths=1024)
+                         max_paths=max_paths * max_paths // 16)
     except AnalysisError as e:
         rep.undecided(rule, key, '%s: %s' % (label, e), where)
         return None
@@ -499,25 +499,83 @@ def history_compare(rep, rule, key, world, prepare, earlier, later,
         if o.kind == 'raise':
             return 'raise %s%s' % (o.exc_class, seen)
         return 'return %s%s' % (_norm_text(o.value), seen)
-    terms1 = set()
-    for o in o1:
-        terms1.update(_norm_text(t) for t, _b in o.assumptions)
-    want = set()
-    for o in o1:
-        want.add((frozenset((_norm_text(t), b) for t, b in o.assumptions),
-                  res(o)))
-    got = set()
-    for o in o2:
-        got.add((frozenset((_norm_text(t), b) for t, b in o.assumptions
-                           if _norm_text(t) in terms1), res(o)))
-    rep.case({'case': label, 'outcomes': sorted(r for _a, r in want)[:4]},
+    def facts(o):
+        """assumptions of a path as {fact text: polarity}; the outcome of a
+        partial call (defined / raises X) is one fact per call whose value
+        is the outcome."""
+        d = {}
+        for t, pol in o.assumptions:
+            if isinstance(t, T) and t.op in ('defined', 'raises') and \
+                    pol is True:
+                d['outcome of ' + _norm_text(t.args[0])] = \
+                    'defined' if t.op == 'defined' else str(t.args[1])
+            else:
+                d[_norm_text(t)] = pol
+        return d
+    want = [(facts(o), res(o)) for o in o1]
+    got = [(facts(o), res(o)) for o in o2]
+    rep.case({'case': label, 'outcomes': sorted({r for _a, r in want})[:4]},
              (key, label))
-    extra = sorted(r for a, r in got - want)
-    ok = got == want
+    # both explorations partition the valuations of their facts: wherever
+    # a path of the second run and a path of the lone run can hold together
+    # (no fact with two values), the answers must agree
+    clash = None
+    for a2, r2 in got:
+        met = False
+        for a1, r1 in want:
+            if any(k in a2 and a2[k] != v for k, v in a1.items()):
+                continue
+            met = True
+            if r1 != r2:
+                clash = (r2, r1, a1)
+                break
+        if clash:
+            break
+        if not met:
+            clash = (r2, None, a2)
+            break
+    ok = clash is None
+    if not ok and globals().get("_dbg"):
+        _dbg(got, want)
+    extra = [clash[0]] if clash else []
     rep.check(rule, key, ok,
               '%s: the second call answers %s, alone it answers %s' % (
-                  label, extra[:3] or sorted(r for _a, r in got)[:3],
-                  sorted(r for _a, r in want)[:3]) if not ok else
+                  label, extra[:3],
+                  ([clash[1]] if clash[1] else
+                   sorted({r for _a, r in want})[:3])) if not ok else
               '%s: same answer as without the earlier call' % label,
               where, case=label)
     return ok
+
+
+def history_family(rep, rule, key, world, funcs, pairs, setup=None,
+                   lift=None, depth=6, effects=None, max_paths=256):
+    """history_compare over a family of sibling functions: each pair is
+    ((name, args, kwargs), (name, args, kwargs)) of plain Python constants;
+    both calls go through one dispatcher so that state shared *between* the
+    siblings is seen as well.  *funcs*: name -> callable value."""
+    from .values import AbsFunc
+    lift = lift or K
+
+    def prepare(interp):
+        def run(i2, a, kw):
+            return i2.call(funcs[a[0].v], list(a[1:]), kw)
+        return AbsFunc(key, run)
+
+    def call(c):
+        name, args, kw = c
+        return ([K(name)] + [lift(x) for x in args],
+                {k: lift(v) for k, v in kw.items()})
+
+    def text(c):
+        name, args, kw = c
+        return '%s(%s)' % (name, ', '.join(
+            [repr(x) for x in args] + ['%s=%r' % i for i in kw.items()]))
+    done = 0
+    for first, second in pairs:
+        r = history_compare(rep, rule, key, world, prepare, call(first),
+                            call(second), setup=setup, depth=depth,
+                            label='%s then %s' % (text(first), text(second)),
+                            effects=effects, max_paths=max_paths)
+        done += r is not None
+    return done
